@@ -73,7 +73,19 @@ func wrap(word string, v interface{}) interface{} {
 // ownClassification: x (or a part of it) classifies itself, so that
 // "Safe(x) contains no envelope" is not claimed.
 func ownClassification(d *D) bool {
-	return containsKind(d, "Safe", "Unsafe", "RS", "RB", "Builder", "PBuilder", "SafeFmt", "SafeFmtErr", "Reentrant")
+	return containsKind(d, "Safe", "Unsafe", "RS", "RB", "Builder", "PBuilder", "SafeFmt", "SafeFmtErr", "Reentrant") || containsReadOnlyRedactable(d)
+}
+
+func containsReadOnlyRedactable(d *D) bool {
+	if d.K == "RVFieldT" && rvFieldTIndex(d) < 2 {
+		return true
+	}
+	for _, s := range d.Sub {
+		if containsReadOnlyRedactable(s) {
+			return true
+		}
+	}
+	return false
 }
 
 func hasRedactable(d *D) bool { return containsKind(d, "RS", "RB", "Builder", "PBuilder") }
@@ -87,12 +99,15 @@ type c06case struct {
 	Dir  Dir    `json:"dir"`
 	Word string `json:"word"`
 	RV   bool   `json:"as_reflect_value,omitempty"`
+	// how the reflect.Value is obtained: 0 reflect.ValueOf(v); 1 an interface-kind slice element holding v;
+	// 2 a read-only interface-kind value (unexported field) holding v; 3 the read-only wrapper value itself
+	RVForm int `json:"reflect_value_form,omitempty"`
 }
 
 func (c c06case) String() string {
 	s := fmt.Sprintf("Sprintf(%q, %s(%s))", c.Dir.String(), c.Word, c.X)
 	if c.RV {
-		s += " [as reflect.Value]"
+		s += " [as reflect.Value, form " + itoa(c.RVForm) + "]"
 	}
 	return s
 }
@@ -157,6 +172,14 @@ func c06check(w *Worker, cs c06case, hook bool, idx int64) {
 	mk := func(word string) interface{} {
 		v := wrap(word, x)
 		if cs.RV {
+			switch cs.RVForm {
+			case 1:
+				return reflect.ValueOf([]interface{}{v}).Index(0)
+			case 2:
+				return reflect.ValueOf(tSUnexp{0, "", v}).Field(2)
+			case 3:
+				return reflect.ValueOf(tSUnexp{0, "", v}).Field(2).Elem()
+			}
 			return reflect.ValueOf(v)
 		}
 		return v
@@ -188,7 +211,7 @@ func c06check(w *Worker, cs c06case, hook bool, idx int64) {
 	// Text equality with fmt is asserted only where fmt can print the same x the
 	// same way: not for values with redact-specific rendering (SafeMessager text,
 	// RedactableBytes/StringBuilder printed as text, re-entrant formatters).
-	fmtComparable := !(containsKind(cs.X, "RS") && !bareDirective(d)) && !containsKind(cs.X, "Reentrant", "SafeMsg", "RB", "Builder", "PBuilder") && !(hook && containsKind(cs.X, "SafeFmtErr"))
+	fmtComparable := !(containsKind(cs.X, "RS") && !bareDirective(d)) && !containsKind(cs.X, "Reentrant", "SafeMsg", "RB", "Builder", "PBuilder") && !containsReadOnlyRedactable(cs.X) && !(hook && containsKind(cs.X, "SafeFmtErr"))
 	if containsKind(cs.X, "Safe", "Unsafe") {
 		// x holds wrapper objects inside a container: fmt prints those through
 		// their Format method as if they were top-level operands (padding of nil,
@@ -236,7 +259,7 @@ func c06check(w *Worker, cs c06case, hook bool, idx int64) {
 		}
 	}
 	if len(cs.X.Sub) > 0 || hasMarker(out.out) || strings.Contains(out.out, "\n") || strings.Contains(cs.X.K, "er") {
-		w.Nontrivial(hashStrs(cs.Word, d.String(), cs.X.String(), sprint(cs.RV)))
+		w.Nontrivial(hashStrs(cs.Word, d.String(), cs.X.String(), sprint(cs.RV), itoa(cs.RVForm)))
 	}
 	if idx%70001 == 5 {
 		w.Sample(map[string]string{"case": cs.String(), "output_q": q(out.out)})
@@ -321,7 +344,8 @@ func runC06(c *Ctx) {
 	for _, l := range leaves {
 		for _, dd := range []Dir{{Verb: "v"}, {Verb: "v", Flags: "+"}, {Verb: "v", Flags: "#"}, {Verb: "s", Width: "7"}, {Verb: "d"}, {Verb: "x", Flags: "#"}, {Verb: "q"}} {
 			for _, word := range wrapperWords {
-				cases = append(cases, c06case{X: l, Dir: dd, Word: word}, c06case{X: l, Dir: dd, Word: word, RV: true})
+				cases = append(cases, c06case{X: l, Dir: dd, Word: word}, c06case{X: l, Dir: dd, Word: word, RV: true},
+					c06case{X: l, Dir: dd, Word: word, RV: true, RVForm: 1}, c06case{X: l, Dir: dd, Word: word, RV: true, RVForm: 2}, c06case{X: l, Dir: dd, Word: word, RV: true, RVForm: 3})
 			}
 		}
 	}
@@ -341,7 +365,10 @@ func runC06(c *Ctx) {
 	n := c.pick(1000000, 15000000)
 	c.ParallelFor(n, func(w *Worker, i int64) {
 		r := newRng(c.Seed, 0xc06, uint64(i))
-		cs := c06case{X: c06randX(r, o), Dir: randDir(r, genOpts{}, r.Chance(1, 5)), Word: wrapperWords[r.Intn(len(wrapperWords))], RV: r.Chance(1, 8)}
+		cs := c06case{X: c06randX(r, o), Dir: randDir(r, genOpts{}, r.Chance(1, 5)), Word: wrapperWords[r.Intn(len(wrapperWords))], RV: r.Chance(1, 6)}
+		if cs.RV {
+			cs.RVForm = r.Intn(4)
+		}
 		cs.Dir.Lit = ""
 		c06check(w, cs, hook, i)
 		w.Count("random_cases", 1)
